@@ -19,6 +19,18 @@ CLAIMS = {
         "spence(z) = Li2(1-z); eko.constants read from installed source. Kernel variable assumed in (0,1).",
         "DESIGN.md section 3, C03",
     ),
+    "C12": (
+        "normal-form identity between partially evaluated operators (symbolic target vs rotated proton); ownership/aliasing rule; table folding",
+        "Decides: for every cell of a lattice (kinds x heavyness x NC/CC x ZM-VFNS/FFNS/FFN0/FONLL-* x orders, with and without scale "
+        "variations) the operator folded with a symbolic target (Z, A) equals entry by entry, as a polynomial identity in Z, A, the weights "
+        "and the opaque convolution values, the proton operator with the d/u and dbar/ubar rows mixed by [[Z,A-Z],[A-Z,Z]]/A and all other "
+        "rows unchanged; structurally, that no partons dict shared by co-executable Kernel(...) constructions is mutated in place; and that "
+        "update_target folds every named target to its documented (Z, A), passes explicit dicts through and rejects unknown names. "
+        "NOT decided: numerical values of the convolutions.",
+        "Trusted: CPython ast; yadsa partial evaluator with quadrature/eko/LeProHQ opaque; rotation matrix and proton/neutron/isoscalar from "
+        "docs/source/theory/misc.rst; iron/lead/neon/marble values transcribed from the cited sources.",
+        "DESIGN.md section 3, C12",
+    ),
     "C16": (
         "partial evaluation of the repository's source over the configuration lattice; must-pass-through; probe folding",
         "Decides: over the documented configuration lattice (kind x heavyness x process x scheme/NfFF x PTO, plus scale-variation, "
